@@ -102,7 +102,7 @@ def build_complex(ctx):
     shapes, dim, desc)."""
     from pyiga import bspline, geometry
     g = ctx.ch.stream('geo')
-    kind = g.weighted([('box2', 5), ('ring', 3), ('box3', 2), ('annulus', 2)])
+    kind = g.weighted([('box2', 5), ('ring', 3), ('box3', 2), ('annulus', 2), ('concentric', 1)])
     desc = {'kind': kind}
     lin = bspline.make_knots(1, 0.0, 1.0, 1)
     patches, corners = [], []
@@ -152,6 +152,39 @@ def build_complex(ctx):
             geo = geometry.BSplineFunc((lin,) * dim, co)
             patches.append((tuple(kvs), geo))
             corners.append(co)
+    elif kind == 'concentric':
+        # 2-3 concentric rings, each ONE patch that closes on itself in the angular direction: the interfaces are
+        # closed curves whose two end points coincide, so corner points cannot tell the orientation
+        dim = 2
+        k = g.intrange(2, 3)
+        degs = [g.intrange(1, 2), g.intrange(2, 3)]          # radial, angular
+        nint = [g.intrange(1, 2), 1]
+        desc.update(k=k, degs=degs, nint=nint, reparam=[])
+        ang_kv = bspline.KnotVector(np.array([0, 0, 0, .25, .5, .75, 1, 1, 1.]), 2)
+        t0 = 2 * np.pi * g.choice(8) / 8.0
+        rot = np.array([[np.cos(t0), -np.sin(t0)], [np.sin(t0), np.cos(t0)]])
+        Q = [rot @ np.array(q, float) for q in [(1, 0), (1, 1), (-1, 1), (-1, -1), (1, -1), (1, 0)]]
+        for i in range(k):
+            base = np.zeros((2, 6, 2))
+            for ir, rad in enumerate((1.0 + i, 2.0 + i)):
+                for ia in range(6):
+                    base[ir, ia] = rad * Q[ia]
+            brk = [np.linspace(0.0, 1.0, nint[0] + 1), np.linspace(0.0, 1.0, 4 * nint[1] + 1)]
+            base_kvs = [_kv(bspline, degs[0], brk[0]), _kv(bspline, degs[1], brk[1])]
+            base_gkvs = [lin, ang_kv]
+            perm = g.pick([(0, 1), (1, 0)])
+            fl = tuple(bool(g.choice(2)) for _ in range(2))
+            desc['reparam'].append([i, list(perm), [int(f) for f in fl]])
+            co = np.transpose(base, tuple(perm) + (2,))
+            kvs = [base_kvs[perm[0]], base_kvs[perm[1]]]
+            gkvs = [base_gkvs[perm[0]], base_gkvs[perm[1]]]
+            for kk in range(2):
+                if fl[kk]:
+                    co = np.flip(co, axis=kk)
+            co = np.ascontiguousarray(co)
+            geo = geometry.BSplineFunc(tuple(gkvs), co)
+            patches.append((tuple(kvs), geo))
+            corners.append(np.asarray(geo.grid_eval([np.array([0.0, 0.25, 0.5, 0.75, 1.0])] * 2)))
     elif kind == 'annulus':
         # k >= 2 curved patches around a hole; for k = 2 the SAME two patches share TWO faces
         dim = 2
@@ -480,7 +513,7 @@ def run_case(ctx):
 
     e = ch.stream('end')
     # ---- geometric oracle: with all interfaces delivered, dofs are glued iff Greville points coincide
-    if all_delivered:
+    if all_delivered and cx['desc']['kind'] != 'concentric':     # (a ring's own seam coincides geometrically, undeclared)
         ctx.count('runs.all.delivered')
         g2pt = {}
         pt2g = {}
